@@ -87,11 +87,69 @@ theorem expIn_nodup {dir : Bool} {er : List ERef} (h : (er.map (·.id)).Nodup) (
   · exact nodup_of_nodup_map _ _ (nodup_filter_ids h _)
   · exact nodup_map_keep_id (nodup_filter_ids h _) _ (fun e => by unfold orientIn; split <;> simp)
 
-/-- `pairCode` is injective on pairs with second component below 100 (first: any) when not canonicalising,
-and on canonical pairs (`a ≤ b`) when canonicalising -/
-theorem pairCode_false (a b : Nat) : pairCode false a b = a * 100 + b := by simp [pairCode]
+/-! ### the pair code (`pcode`, Model/VisitTable.lean) is injective on ALL pairs of naturals (wave 5: replaces the
+bounded code `a * 100 + b`, so that no theorem about a pair-id type needs a bound on the node ids) -/
 
-theorem pairCode_le (sym : Bool) {a b : Nat} (h : a ≤ b) : pairCode sym a b = a * 100 + b := by
+theorem sq_succ (s : Nat) : (s + 1) * (s + 1) = s * s + 2 * s + 1 := by
+  simp only [Nat.add_mul, Nat.mul_add, Nat.mul_one, Nat.one_mul]; omega
+
+theorem pcode_lo (a b : Nat) : max a b * max a b ≤ pcode a b := by
+  unfold pcode
+  by_cases h : a < b
+  · have : max a b = b := by omega
+    simp only [h, if_true, this]; omega
+  · have : max a b = a := by omega
+    simp only [h, if_false, this]; omega
+
+theorem pcode_hi (a b : Nat) : pcode a b < (max a b + 1) * (max a b + 1) := by
+  unfold pcode
+  rw [sq_succ]
+  by_cases h : a < b
+  · have : max a b = b := by omega
+    simp only [h, if_true, this]; omega
+  · have : max a b = a := by omega
+    simp only [h, if_false, this]; omega
+
+theorem pcode_max {a b c d : Nat} (h : pcode a b = pcode c d) : max a b = max c d := by
+  have key : ∀ a b c d : Nat, pcode a b = pcode c d → ¬ max a b < max c d := by
+    intro a b c d h hlt
+    have h1 := pcode_hi a b
+    have h2 := pcode_lo c d
+    have h3 : (max a b + 1) * (max a b + 1) ≤ max c d * max c d := Nat.mul_le_mul hlt hlt
+    omega
+  have := key a b c d h
+  have := key c d a b h.symm
+  omega
+
+/-- the pair code names one pair: injective on ALL pairs of naturals -/
+theorem pcode_inj {a b c d : Nat} (h : pcode a b = pcode c d) : a = c ∧ b = d := by
+  have hm := pcode_max h
+  unfold pcode at h
+  by_cases h1 : a < b <;> by_cases h2 : c < d
+  · have e1 : max a b = b := by omega
+    have e2 : max c d = d := by omega
+    have : b = d := by omega
+    subst this
+    simp only [h1, h2, if_true] at h; omega
+  · have e1 : max a b = b := by omega
+    have e2 : max c d = c := by omega
+    have : b = c := by omega
+    subst this
+    simp only [h1, h2, if_true, if_false] at h; omega
+  · have e1 : max a b = a := by omega
+    have e2 : max c d = d := by omega
+    have : a = d := by omega
+    subst this
+    simp only [h1, h2, if_true, if_false] at h; omega
+  · have e1 : max a b = a := by omega
+    have e2 : max c d = c := by omega
+    have : a = c := by omega
+    subst this
+    simp only [h1, h2, if_false] at h; omega
+
+theorem pairCode_false (a b : Nat) : pairCode false a b = pcode a b := by simp [pairCode]
+
+theorem pairCode_le (sym : Bool) {a b : Nat} (h : a ≤ b) : pairCode sym a b = pcode a b := by
   unfold pairCode
   have : ¬ b < a := by omega
   simp [this]
@@ -106,7 +164,7 @@ theorem pairCode_comm (a b : Nat) : pairCode true a b = pairCode true b a := by
     · have : a = b := by omega
       subst this; simp
 
-theorem code_inj {a b c d : Nat} (hb : b < 100) (hd : d < 100) (h : a * 100 + b = c * 100 + d) : a = c ∧ b = d := by
-  omega
+/-- (kept under its old name; the bounds of the old code are gone) -/
+theorem code_inj {a b c d : Nat} (h : pcode a b = pcode c d) : a = c ∧ b = d := pcode_inj h
 
 end PetgraphModel.Visit
